@@ -1,6 +1,7 @@
 import GqlVerif.Props.C05
 import GqlVerif.Proofs.C05Body
 import GqlVerif.Proofs.ComposedC05
+import GqlVerif.Proofs.C05BodyModel
 open GqlVerif.C05
 #print axioms module_shape
 #print axioms module_constants
@@ -29,3 +30,14 @@ open GqlVerif.C05
 #print axioms GqlVerif.Composed.derive_uses_struct_ident
 #print axioms GqlVerif.Composed.derive_struct_no_fallback
 #print axioms GqlVerif.Composed.derive_struct_selects_first
+-- build_query through an IR of the emitted impl block (Proofs/C05BodyModel.lean)
+#print axioms GqlVerif.C05BodyModel.buildQuery_of_module
+#print axioms GqlVerif.C05BodyModel.body_members
+#print axioms GqlVerif.C05BodyModel.body_keys
+#print axioms GqlVerif.C05BodyModel.generatedModule_fields
+#print axioms GqlVerif.C05BodyModel.impl_of_generatedModule
+#print axioms GqlVerif.C05BodyModel.body_of_generatedModule
+#print axioms GqlVerif.C05BodyModel.request_body_of_generate
+#print axioms GqlVerif.C05BodyModel.wire_body_of_generate
+#print axioms GqlVerif.C05BodyModel.buildQuery_needs_consts
+#print axioms GqlVerif.C05BodyModel.buildQuery_needs_member
